@@ -44,6 +44,14 @@ checks = {
    technique="deterministic simulation: seeded schedule search (baton scheduler, PRNG-driven pre-emption at every lock/channel/fs yield point) over concurrent ingest, timer flushes, rotation and searches, with an interval oracle over invoke/return sequence numbers, wait-for-graph deadlock detection, spin/hang watchdogs",
    text="The interleaving of ingesters, the real idle/max-wait flush loops, a rotator and searchers is the choice sequence of a seeded scheduler that owns which goroutine runs; each search is judged by interval rules (no event twice, nothing from the future, everything whose flush completed before the search began, exact contents after quiescence); deadlocks, hangs and panics of the node are violations. Exploration is the right level for an unbounded schedule space.",
    note=TRUST + " Because tasks are serialised by the baton, raw unsynchronised memory accesses are not observed: the 'no data races' clause is decided only through its visible effects, lock-order deadlocks and crashes."),
+ "C13": dict(level="exploration", ref="DESIGN.md §4 C13",
+   technique="deterministic simulation: seeded create/ingest/alias/delete/restart histories over several organisations and prefix-related index names, every query form checked against a tenant/index reference model",
+   text="Histories over 2-3 organisations and index names that are prefixes of each other are executed on the real node (real virtual-table, alias, delete and start-up code); after every step searches and group-by counts for every (organisation, index expression) must return exactly the model's events of the indexes of that organisation that the expression names.",
+   note=TRUST + " Organisations are selected through the myid parameter of the real entry points (the open-source HTTP layer always uses organisation 0)."),
+ "C14": dict(level="fault_enumeration", ref="DESIGN.md §4 C14",
+   technique="deterministic simulation on the fake clock with crash-point enumeration: segments placed around the retention horizon, the real time-based pass, a crash after every mutating fs call of the pass, restart and repeated pass, store digest compared with the uninterrupted run",
+   text="Victims must be exactly the rotated segments whose newest event is older than the horizon (decided at pass time on the simulated clock); survivors stay fully searchable, deleted data is gone, counts agree; for every crash point inside the pass the restarted node repeats the pass and must reach the same store digest (segment directories, segmeta.json, metrics meta, table names) as the uninterrupted run. Exhaustive over the pass's fs calls per explored history in the thorough tier.",
+   note=TRUST + " Only the time-based pass is driven (volume- and inode-based passes are not). Segments are kept at least two minutes away from the horizon."),
  "C01": dict(level="exploration", ref="DESIGN.md §4 C01",
    technique="deterministic simulation: seeded ingest/flush/rotate/restart histories on the real node under the seeded scheduler, checked against an event-set reference model",
    text="Seeded search over ingest histories (batching, flush, forced rotation, idle-timer flush, graceful restart, swarm knobs) executed by the real writer/reader/query code inside a deterministic simulator; after every flush-completing step the match-all result must equal the model's event multiset field by field. Exploration is the right level: the space of histories x JSON shapes is unbounded.",
